@@ -62,6 +62,9 @@ func genNet(r *simrt.Rand, faulty bool) NetConfig {
 	}
 	n.PollMode = r.Intn(2)
 	n.PollWorkers = 1 + r.Intn(3)
+	if r.Chance(1, 5) {
+		n.Window = []int{512, 4096, 65536}[r.Intn(3)] // bounded in-flight bytes per direction: writers block (back-pressure)
+	}
 	if faulty {
 		n.SilentPipe = r.Bool()
 	}
